@@ -101,6 +101,12 @@ def analyse_unit(r, tops, allowed_assumptions, support=None):
         if p in fres and not fres[p]['ok'] and not any(x['function'] == p for x in out['failures']) and \
                 not any(x.get('function') == p for x in out['inconclusive']):
             out['inconclusive'].append({'why': 'function-failed-without-diagnostic', 'function': p})
+    # annotation lines that are executable text (not ghost code) must be of an allow-listed shape
+    allow_exec = [r'^\}? ?else \{$', r'^\}$', r'^\w+: Ghost\(.*\),$', r'^let mut this = self;$', r'^V: KeyValue<K>,$']
+    out['exec_annotation_lines'] = len(r.get('exec_annotations', []))
+    for ea in r.get('exec_annotations', []):
+        if not any(re.match(rx, ea['text']) for rx in allow_exec):
+            out['inconclusive'].append({'why': 'exec-annotation-not-allowed', 'detail': ea})
     # assumptions used by the cone
     for a in r['assumption_scan']:
         ok = any(re.fullmatch(x['name'], a['name'] or '') and x['kind'] == a['kind'] for x in allowed_assumptions)
@@ -349,7 +355,8 @@ def check_property(pid, tier, repo, scratch, seed):
             'functions_under_contract': sorted(set(x for u in units for x in u['functions_under_contract'])),
             'backends': sorted(set(['z3 via Verus'] * bool(units) + [b for e in extra for b in e.get('backends', [])])),
             'solver_ms': sum((o.get('smt_ms') or 0) for o in obligations),
-            'extraction': [{'unit': u['unit'], 'files': u['extract']['files'], 'transform_counts': u['extract']['transform_counts']} for u in units],
+            'extraction': [{'unit': u['unit'], 'files': u['extract']['files'], 'transform_counts': u['extract']['transform_counts'],
+                            'non_ghost_annotation_lines_in_repo_fn_bodies': u.get('exec_annotation_lines')} for u in units],
             'vacuity_probes': vac,
             'bounded_components': [b for e in extra for b in e.get('bounded_components', [])],
             'exploration_cross_check': cross,
